@@ -77,9 +77,19 @@ def gen_case(rng, idx, fixed_pairs=None):
         if rng.chance(1, 4):
             # anti-entropy also runs while clients are still writing: the trackers it leaves behind decide what later polls skip
             j = rng.below(n); i2 = (j + 1 + rng.below(n - 1)) % n
-            m = rng.below(4)
+            m = rng.below(5) if len(spaces) == 1 else rng.below(4)
             # m = 3: one round of the poller's PRODUCTION loop (repair_members) over all other nodes
-            lines.append('repair %d %d %d' % (j, i2, m) if m < 2 else 'repairc %d %d' % (j, i2) if m == 2 else 'repairm %d' % j)
+            # m = 4: an exchange that is NOT atomic: the peer is written to between its state snapshot and the document fetch
+            if m == 4:
+                lines.append('repair-begin %d %d %d' % (j, i2, rng.below(2)))
+                for _ in range(rng.range(0, 2)):
+                    q = rng.below(4)
+                    if q == 0: lines.append('put %d %d %02x' % (i2, rng.choice(ids), rng.below(256))); k_sp['origin'].append(i2); k_sp['nops'] += 1
+                    elif q == 1: lines.append('del %d %d' % (i2, rng.choice(ids))); k_sp['origin'].append(i2); k_sp['nops'] += 1
+                    elif k_sp['nops'] >= 1: lines.append('deliver %d %d' % (rng.choice([i2, i2, j]), rng.below(k_sp['nops'])))
+                lines.append('repair-end %d %d' % (j, i2))
+            else:
+                lines.append('repair %d %d %d' % (j, i2, m) if m < 2 else 'repairc %d %d' % (j, i2) if m == 2 else 'repairm %d' % j)
         if rng.chance(1, 4): lines.append('read %d' % rng.below(n))
     # quiescence: every ordered pair completes an exchange (each covers every keyspace), late deliveries in between
     pairs = fixed_pairs if fixed_pairs is not None else rng.shuffle([(j, i) for j in range(n) for i in range(n) if i != j])
@@ -96,7 +106,14 @@ def gen_case(rng, idx, fixed_pairs=None):
             use(sp)
             (jj, k2) = st[sp]['pending'].pop(); lines.append('deliver %d %d' % (jj, k2))
         m = rng.below(3)
-        lines.append('repair %d %d %d' % (j, i, m) if m < 2 else 'repairc %d %d' % (j, i))
+        if len(spaces) == 1 and st['ks']['nops'] >= 1 and rng.chance(1, 4):
+            # the peer receives late deliveries between its state snapshot and the document fetch of this exchange
+            lines.append('repair-begin %d %d %d' % (j, i, rng.below(2)))
+            for _ in range(rng.range(1, 2)):
+                lines.append('deliver %d %d' % (i, rng.below(st['ks']['nops'])))
+            lines.append('repair-end %d %d' % (j, i))
+        else:
+            lines.append('repair %d %d %d' % (j, i, m) if m < 2 else 'repairc %d %d' % (j, i))
         lines.append('read %d' % j)
     for sp in spaces:
         use(sp)
@@ -221,7 +238,7 @@ def stats(verdicts):
     for v in verdicts:
         for l, o in zip(v['case'], v['impl']):
             k = l.split()[0]
-            if k in ('repair', 'repairc', 'repairm'): k = k + ':' + o.split()[0]
+            if k in ('repair', 'repairc', 'repairm', 'repair-begin', 'repair-end'): k = k + ':' + ' '.join(o.split()[:2] if k == 'repair-begin' else o.split()[:1])
             elif k == 'deliver' or k == 'batch': k = k + ':' + o
             d[k] = d.get(k, 0) + 1
         d['nodes%s' % v['case'][1].split()[1]] = d.get('nodes%s' % v['case'][1].split()[1], 0) + 1
